@@ -1,6 +1,7 @@
 //! Small-scope grammar of well-formed HTTP/1.x heads (shared by C05, C20, C12).
 
-pub const FIELD_POOL: [&[u8]; 9] = [
+pub const FIELD_POOL: [&[u8]; 10] = [
+    b"Location: /caf\xe9/\xfcber",
     b"A: 1",
     b"A: 2",
     b"b:3",
